@@ -4,6 +4,7 @@ import (
 	"encoding/binary"
 	"fmt"
 	"io"
+	"math"
 )
 
 // MP4ChunkParser is a parser for fragmented mp4 content.
@@ -59,6 +60,9 @@ func (p *MP4ChunkParser) Parse() error {
 		currBox = string(p.buf[nextBoxStart+4 : nextBoxStart+8])
 		if size < 8 {
 			return fmt.Errorf("invalid size %d of box %q", size, currBox)
+		}
+		if size > math.MaxUint32-nextBoxStart {
+			return fmt.Errorf("size %d of box %q at offset %d is beyond what can be addressed", size, currBox, nextBoxStart)
 		}
 		nextBoxStart += size
 		switch currBox {
